@@ -314,6 +314,8 @@ package server
 //@   ghost after call GetLeader: ghost.curLeader := ret0
 //@   ghost after call GetLeader: ghost.curEpoch := ret1
 //@   ghost after call inISR: ghost.witnessOK := ret0 && arg1 == req.Replica
+//@   ghost after call newPartitionFailoverExpiredHandler: ghost.expiryFor := arg1
+//@   call newPartitionFailoverStatus requires [expiry-wired-for-this-partition] ghost.expiryFor == arg0 && arg0 == partition
 //@   call report requires [fenced] req.Leader == ghost.curLeader && req.LeaderEpoch == ghost.curEpoch
 //@   call report requires [witness-is-in-sync-follower] arg2 == req.Replica && ghost.witnessOK && req.Replica != ghost.curLeader
 
@@ -519,3 +521,11 @@ package server
 //@   call send.ch requires [reader-offset] arg1.Offset == offset && arg1.Timestamp == timestamp
 //@   call send.ch requires [within-range] stopOffset == -1 || arg1.Offset <= stopOffset
 //@   call send.ch requires [decrypted] p.encryptionHandler == nil || ghost.opened[arg1.Value]
+
+// the timeout window: when the fail-over timer fires, the partition's fail-over status (and with it the
+// witnesses recorded in that window) is forgotten; ReportLeader wires exactly that handler for the partition
+//@ ghost var expiryFor *partition
+//@ func (*metadataAPI).newPartitionFailoverExpiredHandler$1 serves C07
+//@   ensures [status-forgotten] !(p in m.partitionFailovers)
+//@ func (*metadataAPI).newPartitionFailoverExpiredHandler serves C07
+//@   requires m != nil
